@@ -89,7 +89,7 @@ pub enum Ev {
     /// data sync of a file; carries the content at that moment
     SyncFile(Ino, Vec<u8>),
     /// an object moved to another directory
-    MovedAcross { ino: Ino, from_dir: Ino, from_name: String, to_dir: Ino },
+    MovedAcross { ino: Ino, from_dir: Ino, from_name: String, to_dir: Ino, to_name: String },
     SyncDir(Ino),
 }
 
@@ -593,13 +593,14 @@ impl Tree {
         }
         let (ad, aname) = self.lookup_parent(a).expect("parent of existing");
         self.dir_mut(ad).remove(&aname);
-        self.dir_mut(bd).insert(bname, src);
+        self.dir_mut(bd).insert(bname.clone(), src);
         if ad != bd {
             self.events.push(Ev::MovedAcross {
                 ino: src,
                 from_dir: ad,
                 from_name: aname,
                 to_dir: bd,
+                to_name: bname,
             });
         }
         Expect::Ok(Val::Unit)
